@@ -37,6 +37,7 @@ type edit struct {
 func main() {
 	dir := flag.String("dir", "", "scratch copy of the repository")
 	noyield := flag.String("noyield", "", "comma separated file base names that get no yields")
+	yieldfuncs := flag.String("yieldfuncs", "", "comma separated file.go:Func entries: functions of a -noyield file that get yields all the same")
 	modpath := flag.String("mod", "github.com/high-moctane/mocrelay", "module path")
 	flag.Parse()
 	if *dir == "" || flag.NArg() == 0 {
@@ -47,6 +48,15 @@ func main() {
 	for _, f := range strings.Split(*noyield, ",") {
 		if f != "" {
 			skip[f] = true
+		}
+	}
+	only := map[string]map[string]bool{}
+	for _, e := range strings.Split(*yieldfuncs, ",") {
+		if f, fn, ok := strings.Cut(e, ":"); ok {
+			if only[f] == nil {
+				only[f] = map[string]bool{}
+			}
+			only[f][fn] = true
 		}
 	}
 	cfg := &packages.Config{
@@ -91,6 +101,14 @@ func main() {
 			}
 			base := filepath.Base(path)
 			doYield := !skip[base]
+			var allowed [][2]token.Pos // bodies of the -yieldfuncs functions of a -noyield file
+			if !doYield && only[base] != nil {
+				for _, d := range f.Decls {
+					if fd, ok := d.(*ast.FuncDecl); ok && fd.Body != nil && only[base][fd.Name.Name] {
+						allowed = append(allowed, [2]token.Pos{fd.Body.Pos(), fd.Body.End()})
+					}
+				}
+			}
 			usesSync := ""
 			ast.Inspect(f, func(n ast.Node) bool {
 				switch x := n.(type) {
@@ -114,7 +132,17 @@ func main() {
 					}
 				}
 				if !doYield {
-					return true
+					in := false
+					if n != nil {
+						for _, a := range allowed {
+							if n.Pos() >= a[0] && n.End() <= a[1] {
+								in = true
+							}
+						}
+					}
+					if !in {
+						return true
+					}
 				}
 				var list []ast.Stmt
 				switch x := n.(type) {
